@@ -134,6 +134,17 @@ def case_tau2(case, res):
     kernel = lsl.tau2_gibbs_kernel(g)
     kernel.set_model(iface)
     state = model.state
+    if case["idx"] % 2 == 1:
+        # the hyper-parameters and coefficients in the *state handed to the kernel* differ from those the model
+        # held when the kernel was built (as in any engine run where they are sampled or re-assigned)
+        a2 = float(np.round(desc["a"] * np.exp(rng.uniform(-1.2, 1.2)), 3))
+        b2 = float(np.round(desc["b"] * np.exp(rng.uniform(-1.5, 1.5)), 4))
+        beta2 = np.asarray(model.vars[g["beta"].name].value) * float(rng.choice([0.3, 2.5]))
+        state = iface.update_state({g["a"].name: jnp.asarray(a2, jnp.float32), g["b"].name: jnp.asarray(b2, jnp.float32),
+                                    g["beta"].name: jnp.asarray(beta2, jnp.float32)}, state)
+        K64 = np.asarray(model.vars[g["K"].name].value, np.float64)
+        desc.update({"a": a2, "b": b2, "bKb": float(beta2.astype(np.float64) @ K64 @ beta2.astype(np.float64)),
+                     "state_changed_after_kernel_built": True})
     N = case["n"]
     key0 = jax.random.PRNGKey(case["draw_seed"])
     name = g["tau2"].name
@@ -218,6 +229,12 @@ def case_discrete(case, res):
         y = rng.poisson(2.0, size=n).astype(np.float32)
         rate = lsl.Var(lsl.Calc(lambda k: 0.5 + jnp.asarray(k, jnp.float32) * c, kv), name="rate")
         nodes.append(lsl.obs(jnp.asarray(y), lsl.Dist(tfd.Poisson, rate=rate), name="y"))
+    if rng.random() < 0.5:
+        # a latent (non-observed) parameter whose prior depends on the discrete variable
+        sc = lsl.Var(lsl.Calc(lambda k: 0.5 + 0.4 * jnp.asarray(k, jnp.float32), kv), name="lat_scale")
+        lat = lsl.param(jnp.asarray(rng.normal(size=2).astype(np.float32) * 2.0), lsl.Dist(tfd.Normal, loc=0.0, scale=sc), name="lat")
+        nodes.append(lat)
+        lik = lik + "+latent"
     model = lsl.GraphBuilder().add(*nodes).build_model()
     kernel = lsl.finite_discrete_gibbs_kernel("k", model, outcomes=outs) if hasattr(lsl, "finite_discrete_gibbs_kernel") else None
     if kernel is None:
